@@ -1,5 +1,6 @@
 import OpusModel.SilkSyms
 import OpusModel.CeltSyms
+import OpusModel.CeltBands
 import Driver.Util
 /- Suite `silksyms` (property C03): the SILK symbol layer as driven by opus_decode.
 
@@ -45,6 +46,7 @@ def cevStr : CEv → String
   | .icdf ftb tbl v => s!"i{ftb}:{dots tbl}={v}"
   | .bin bits fm => s!"d{bits}={fm}"
   | .upd fl fh ft => s!"p{fl},{fh},{ft}"
+  | .dec ft fs => s!"e{ft}={fs}"
 
 /-- The entropy-decoder calls of a CELT header and the entry of `clt_compute_allocation`. -/
 def hdrStr (cfg : CeltSyms.CeltCfg) (r : Res CeltHdr) : List String :=
@@ -56,39 +58,45 @@ def hdrStr (cfg : CeltSyms.CeltCfg) (r : Res CeltHdr) : List String :=
   | .oob => ["OOB"]
   | .abort => ["ABORT"]
 
-def frameStr (toc : Nat) (pkt : Bytes) (mode : Nat) (fec : Bool) (off : Nat) (o : FrameOut) : String :=
+/-- A whole CELT frame: header, `A…` (entry of the allocation), the allocation's calls, `L…` (its results), the calls of
+    fine energy / band data / anti-collapse / finalise, `Z<rng>` (state at the end); and the final range. -/
+def celtStr (cfg : CeltSyms.CeltCfg) (len : Nat) (c : RangeCoder.Dec) : List String × Nat :=
+  match CeltBands.celtFrame cfg len c with
+  | .ok f =>
+    (hdrStr cfg (.ok f.hdr) ++ f.allocSt.tr.reverse.map cevStr ++
+      [s!"L{f.alloc.codedBands},{f.alloc.intensity},{f.alloc.dualStereo},{f.alloc.balance}:{dotsI (f.alloc.bands.map (·.pulses))}:{dotsI (f.alloc.bands.map (·.ebits))}:{dotsI (f.alloc.bands.map (·.prio))}"] ++
+      f.fin.tr.reverse.map cevStr ++ [s!"Z{f.fin.c.rng}"], f.fin.c.rng)
+  | .err e => (hdrStr cfg (CeltSyms.celtHeader cfg len c) ++ [errStr e], 0)
+  | .oob => (hdrStr cfg (CeltSyms.celtHeader cfg len c) ++ ["OOB"], 0)
+  | .abort => (hdrStr cfg (CeltSyms.celtHeader cfg len c) ++ ["ABORT"], 0)
+
+/-- Record of a SILK / hybrid frame and its `rangeFinal` (opus_decoder.c:670-673). -/
+def frameStr (toc : Nat) (pkt : Bytes) (mode : Nat) (fec : Bool) (off : Nat) (o : FrameOut) : String × Nat :=
   let head := s!"silk@{off} fs={o.internalRate} ms={o.payloadMs} nch={o.nCh} lost={o.lostFlag}"
   let evs := o.evs.map evStr
   let bw := Framing.getBandwidth toc
   let spf := Framing.samplesPerFrame toc 48000
   let redBytes := (pkt.drop ((off : Int) + o.len).toNat).take o.redundancyBytes
-  let e := if o.redundancy ≠ 0 then
-      hdrStr { start := 0, end_ := CeltSyms.endBandOf bw, C := o.nCh, LM := 1 } (CeltSyms.redundancyHeader bw o.nCh redBytes) ++
-      [s!"E{(off : Int) + o.len},{o.redundancyBytes}"] else []
+  let red := if o.redundancy ≠ 0 then
+      celtStr { start := 0, end_ := CeltSyms.endBandOf bw, C := o.nCh, LM := 1 } redBytes.length
+        (RangeCoder.decInit redBytes redBytes.length) else ([], 0)
+  let e := if o.redundancy ≠ 0 then red.1 ++ [s!"E{(off : Int) + o.len},{o.redundancyBytes}"] else []
+  let main := if mode = 1001 ∧ ¬ fec ∧ o.len > 1 then
+      celtStr { start := 17, end_ := CeltSyms.endBandOf bw, C := o.nCh, LM := CeltSyms.lmOf spf } o.len.toNat o.dec
+    else ([], o.dec.rng)
   let c := if mode = 1001 ∧ ¬ fec then
-      [s!"C{o.len},{o.dec.storage},{o.dec.rng},{RangeCoder.tell o.dec}"] ++
-      (if o.len > 1 then
-        hdrStr { start := 17, end_ := CeltSyms.endBandOf bw, C := o.nCh, LM := CeltSyms.lmOf spf }
-          (CeltSyms.hybridHeader bw o.nCh spf o.len.toNat o.dec) else [])
-    else []
+      [s!"C{o.len},{o.dec.storage},{o.dec.rng},{RangeCoder.tell o.dec}"] ++ main.1 else []
   let tail := if o.celtToSilk ≠ 0 then e ++ c else c ++ e
-  " ".intercalate (head :: evs ++ tail)
+  (" ".intercalate (head :: evs ++ tail), if o.len ≤ 1 then 0 else main.2 ^^^ red.2)
 
-def celtFrameStr (toc : Nat) (pkt : Bytes) (off sz : Nat) : String :=
+def celtFrameStr (toc : Nat) (pkt : Bytes) (off sz : Nat) : String × Nat :=
   let bw := Framing.getBandwidth toc
   let spf := Framing.samplesPerFrame toc 48000
   let nch := Framing.getNbChannels toc
-  " ".intercalate (s!"celt@{off}" ::
-    hdrStr { start := 0, end_ := CeltSyms.endBandOf bw, C := nch, LM := CeltSyms.lmOf spf }
-      (CeltSyms.celtOnlyHeader bw nch spf ((pkt.drop off).take sz)))
-
-def finalStr (mode : Nat) (fec : Bool) : Option FrameRes → String
-  | none => "F0"
-  | some .plc => "F0"
-  | some (.celt _ _) => "F-"
-  | some (.silk _ o) =>
-    if mode = 1001 ∧ ¬ fec then "F-"
-    else if o.len ≤ 1 then "F0" else s!"F{o.dec.rng}"
+  let fr := (pkt.drop off).take sz
+  let r := celtStr { start := 0, end_ := CeltSyms.endBandOf bw, C := nch, LM := CeltSyms.lmOf spf } fr.length
+             (RangeCoder.decInit fr fr.length)
+  (" ".intercalate (s!"celt@{off}" :: r.1), r.2)
 
 def packetStr (fs : Nat) (fec : Bool) (pkt : Bytes) (r : Option (List FrameRes)) : String :=
   let toc := pkt.headD 0
@@ -97,12 +105,16 @@ def packetStr (fs : Nat) (fec : Bool) (pkt : Bytes) (r : Option (List FrameRes))
   match r with
   | none => s!"OK ret={spf} F0"
   | some l =>
-    let recs := l.filterMap fun
+    let recs : List (String × Nat) := l.filterMap fun
       | .silk off o => some (frameStr toc pkt mode fec off o)
       | .celt off sz => some (celtFrameStr toc pkt off sz)
       | _ => none
     let ret := if fec then spf else l.length * spf
-    " ".intercalate ([s!"OK ret={ret}"] ++ recs ++ [finalStr mode fec l.getLast?])
+    let fin := match l.getLast? with
+      | none => 0
+      | some .plc => 0
+      | some _ => (recs.getLast?.map (fun (x : String × Nat) => x.2)).getD 0
+    " ".intercalate ([s!"OK ret={ret}"] ++ recs.map (fun (x : String × Nat) => x.1) ++ [s!"F{fin}"])
 
 def handle : List String → String
   | ["packet", fs, _ch, fec, pc, hex] =>
@@ -113,7 +125,7 @@ def handle : List String → String
   | ["frame", mode, bw, nch, ms10, fec, hex] =>
     match parseNat mode, parseNat bw, parseNat nch, parseNat ms10, parseNat fec, parseHex hex with
     | some mode, some bw, some nch, some ms10, some fec, some fr =>
-      resStr (fun o => frameStr 0 fr mode (fec != 0) 0 o ++ " " ++ finalStr mode (fec != 0) (some (.silk 0 o)))
+      resStr (fun o => let r := frameStr 0 fr mode (fec != 0) 0 o; r.1 ++ s!" F{r.2}")
         (decodeOpusFrame mode bw nch ms10 (fec != 0) {} fr)
     | _, _, _, _, _, _ => "bad-op"
   | _ => "bad-op"
